@@ -492,6 +492,10 @@ impl HelpTemplate<'_, '_> {
                     arg.get_id(),
                     longest
                 );
+            } else {
+                // A short-only flag is not aligned like `-s, --long`, but it still occupies its own
+                // rendered width (`-v...` for `ArgAction::Count`)
+                longest = longest.max(display_width(&arg.to_string()));
             }
 
             let key = (sort_key)(arg);
